@@ -257,6 +257,55 @@ Definition C17_full_statement : Prop :=
       (forall i, (i < m)%nat -> derivable_pt_lim (fun t => ut t i 0%nat) 0 (du i 0%nat)) /\
       (forall j, (j < c)%nat -> derivable_pt_lim (fun t => vt t j 0%nat) 0 (dv j 0%nat)).
 
+(* ---- the damping (xi) row of the (f, xi) Jacobian.  Model of the second row and of the code's 2 x 2 product
+   Jfx_l = 1/(dt |lam_d|^2 |lam_c|) Mat1 Mat2 Mat3: jxi_lin / jxi_row / jfx_mat in Proofs/P_unc_xi.v (M_unc.v has the first row
+   only).  pct is the literal 100 of Mat1, absc = |lam_c| and inv2pi = 1/(2 pi) are the caller's kernels. ---- *)
+From PyOMA.Proofs Require Import P_unc_xi.
+Section SX.
+Variable R:Type. Variable K:Ops R.
+Hypothesis Fth : field_theory (o0 K) (o1 K) (oadd K) (omul K) (osub K) (oopp K) (odiv K) (oinv K) (@eq R).
+Local Open Scope K_scope.
+Infix "+" := (oadd K) : K_scope. Infix "*" := (omul K) : K_scope. Infix "-" := (osub K) : K_scope. Infix "/" := (odiv K) : K_scope.
+Notation "- x" := (oopp K x) : K_scope.
+(* the two rows of the code's matrix product applied to (x, y) = (Re, Im) d lam are the modelled rows jf_row and jxi_row *)
+Theorem C17_jfx_rows : forall (inv2pi pct dt absc a b c d x y:R),
+  dt <> o0 K -> c*c + d*d <> o0 K -> absc <> o0 K ->
+  mapply K 2 (jfx_mat K inv2pi pct dt absc a b c d) (fun k => match k with 0%nat => x | _ => y end) 0%nat
+    = jf_row K inv2pi dt absc a b c d x y /\
+  mapply K 2 (jfx_mat K inv2pi pct dt absc a b c d) (fun k => match k with 0%nat => x | _ => y end) 1%nat
+    = jxi_row K pct dt absc a b c d x y.
+Proof. exact (jfx_rows R K Fth). Qed.
+(* the code's second row is  pct * d(-Re(lc)/|lc|) = pct [ -Re(dlc) |lc|^2 + Re(lc) Re(conj(lc) dlc) ] / |lc|^3  with
+   dlc = dlam/(lam_d dt) = da + i db;  |lc| = absc is ANY witness with absc^2 = Re(lc)^2 + Im(lc)^2 *)
+Theorem C17_jxi_row_is : forall (pct dt absc a b c d x y:R),
+  dt <> o0 K -> c*c + d*d <> o0 K -> absc <> o0 K -> absc * absc = a*a + b*b ->
+  let da := (c*x + d*y) / (c*c + d*d) / dt in
+  let db := (c*y - d*x) / (c*c + d*d) / dt in
+  jxi_row K pct dt absc a b c d x y
+  = pct * (((- da) * (absc * absc) + a * (a * da + b * db)) / (absc * absc * absc)).
+Proof. exact (jxi_row_is R K Fth). Qed.
+End SX.
+
+(* over the reals: that bracket is the derivative of the damping ratio xi = -Re(lc)/|lc| along ANY differentiable curve
+   lc(t) = a(t) + i b(t) with |lc(t0)| <> 0 ... *)
+Theorem C17_xi_curve : forall (t0:Rdefinitions.R) (a b : Rdefinitions.R -> Rdefinitions.R) (a' b':Rdefinitions.R),
+  (derivable_pt_lim a t0 a' -> derivable_pt_lim b t0 b' -> 0 < a t0 * a t0 + b t0 * b t0 ->
+  let absc := sqrt (a t0 * a t0 + b t0 * b t0) in
+  derivable_pt_lim (fun t => - a t / sqrt (a t * a t + b t * b t)) t0
+    (((- a') * (absc * absc) + a t0 * (a t0 * a' + b t0 * b')) / (absc * absc * absc)))%R.
+Proof. exact d_xi_curve. Qed.
+(* ... and the code's (xi) row is the derivative of pct * xi for ANY differentiable branch lam_c = a + i b of log(lam_d)/dt
+   (exp(dt lam_c) = lam_d = c + i d), exactly as C17_jac_f for the frequency *)
+Theorem C17_jac_xi : forall (pct dt t0:Rdefinitions.R) (a b c d : Rdefinitions.R -> Rdefinitions.R) (a' b' c' d':Rdefinitions.R),
+  (dt <> 0 ->
+  (forall t, c t = exp (dt * a t) * cos (dt * b t)) ->
+  (forall t, d t = exp (dt * a t) * sin (dt * b t)) ->
+  derivable_pt_lim a t0 a' -> derivable_pt_lim b t0 b' -> derivable_pt_lim c t0 c' -> derivable_pt_lim d t0 d' ->
+  0 < a t0 * a t0 + b t0 * b t0 ->
+  derivable_pt_lim (fun t => pct * (- a t / sqrt (a t * a t + b t * b t))) t0
+    (jxi_row ROps17 pct dt (sqrt (a t0 * a t0 + b t0 * b t0)) (a t0) (b t0) (c t0) (d t0) c' d'))%R.
+Proof. exact jac_xi. Qed.
+
 Print Assumptions C17_block_mean.
 Print Assumptions C17_block_mean_gen.
 Print Assumptions C17_factor_gram.
@@ -284,6 +333,10 @@ Print Assumptions C17_dObs_first_order.
 Print Assumptions C17_dObs_postponed.
 Print Assumptions C17_Q_postponed.
 Print Assumptions C17_jac_f.
+Print Assumptions C17_jfx_rows.
+Print Assumptions C17_jxi_row_is.
+Print Assumptions C17_xi_curve.
+Print Assumptions C17_jac_xi.
 
 (* non-vacuity 1: l = r = 1, br = 1, Ndat = 7 (N = 4, three stacked columns), nb = 2, Nb = 2: the last slice is cut to one
    column, the hypotheses of C17_block_mean hold over Qc and the mean of the two block estimates is the full estimate;
@@ -320,4 +373,19 @@ Example C17_example_du :
   showMat (tab2 2 2 (fmul QcOps 2 (Ki_arg QcOps 2 2 (q 1 2) (fm_of QcOps H) (colm QcOps v)) (fm_of QcOps Ki))) = "1/1 0/1;0/1 1/1"%string /\
   showRow (du_code_l QcOps 2 2 (q 1 2) H dH u v Ki) = "0/1 52/15"%string /\
   showQc (dsig_of QcOps 2 2 (lget QcOps u) (fm_of QcOps dH) (lget QcOps v)) = "11/5"%string.
+Proof. vm_compute. repeat split; reflexivity. Qed.
+
+(* non-vacuity 4 (xi row): lam_c = -3 + 4i with the witness |lam_c| = 5 (5*5 = 9 + 16), lam_d = 1 + 2i, dt = 1/2, d lam = 3 - i,
+   pct = 100, and 1/6 standing in for 1/(2 pi): the hypotheses of C17_jfx_rows / C17_jxi_row_is hold; the second row of the code's
+   matrix product gives 544/25 = 100 * 136/625, which is 100 * [ -da |lc|^2 + a (a da + b db) ] / |lc|^3 with da = 2/5, db = -14/5;
+   the first row gives jf_row *)
+Example C17_example_xi_row :
+  let xy := fun k => match k with 0%nat => q 3 1 | _ => q (-1) 1 end in
+  let J := jfx_mat QcOps (q 1 6) (q 100 1) (q 1 2) (q 5 1) (q (-3) 1) (q 4 1) (q 1 1) (q 2 1) in
+  (Qc_eq_bool (q 5 1 * q 5 1) (q (-3) 1 * q (-3) 1 + q 4 1 * q 4 1) = true) /\
+  showQc (mapply QcOps 2 J xy 1%nat) = "544/25"%string /\
+  showQc (jxi_row QcOps (q 100 1) (q 1 2) (q 5 1) (q (-3) 1) (q 4 1) (q 1 1) (q 2 1) (q 3 1) (q (-1) 1)) = "544/25"%string /\
+  showQc (q 100 1 * ((- (q 2 5) * (q 5 1 * q 5 1) + q (-3) 1 * (q (-3) 1 * q 2 5 + q 4 1 * q (-14) 5)) / (q 5 1 * q 5 1 * q 5 1))) = "544/25"%string /\
+  showQc (mapply QcOps 2 J xy 0%nat) = showQc (jf_row QcOps (q 1 6) (q 1 2) (q 5 1) (q (-3) 1) (q 4 1) (q 1 1) (q 2 1) (q 3 1) (q (-1) 1)) /\
+  showQc (mapply QcOps 2 J xy 0%nat) = "-31/75"%string.
 Proof. vm_compute. repeat split; reflexivity. Qed.
